@@ -53,8 +53,16 @@ func (b Binomial) LogProb(x float64) float64 {
 	if x < 0 || x > b.N || math.Floor(x) != x {
 		return math.Inf(-1)
 	}
-	lb := combin.LogGeneralizedBinomial(b.N, x)
-	return lb + x*math.Log(b.P) + (b.N-x)*math.Log(1-b.P)
+	lp := combin.LogGeneralizedBinomial(b.N, x)
+	// Terms with a zero exponent do not contribute, also when
+	// P is 0 or 1 and the logarithm is infinite.
+	if x != 0 {
+		lp += x * math.Log(b.P)
+	}
+	if x != b.N {
+		lp += (b.N - x) * math.Log(1-b.P)
+	}
+	return lp
 }
 
 // Mean returns the mean of the probability distribution.
